@@ -3,9 +3,21 @@
 // Contracts for the deductive checker in /verif (comment-only; compiled only with -tags verif).
 package sorter
 
-//@ func (*Sorter).AddRow
+//@ func writeChunk
 //@   trusted
-//@   modifies s.*
+//@   ensures err == nil ==> result0 != nil
+
+// A row is taken into the sorter only when every cell fits the 2-byte length prefix of the row encoding;
+// otherwise it is refused with an error (never stored truncated, never a panic later in the encoder).
+//@ func (*Sorter).AddRow
+//@   props C01
+//@   requires len(row) <= 1048576
+//@   modifies s.*, s.current[:], s.chunks[:], s.cleanups[:], heap(string)
+//@   ensures [C01] result == nil ==> forall(i, 0, len(row), len(old(row[i])) <= 65535)
+//@   loop 1 invariant iter <= len(row) && forall(i, 0, iter, len(row[i]) <= 65535)
+//@   loop 1 decreases len(row) - iter
+//@   loop 2 invariant iter <= len(row) && forall(i, 0, len(row), len(row[i]) <= 65535)
+//@   loop 2 decreases len(row) - iter
 
 // The CSV is read with the reader options under which encoding/csv returns every cell unaltered
 // (the assumed contract of csv.Reader.Read in /verif/spec/csv.spec has them as its precondition).
